@@ -195,6 +195,29 @@ bool Parser::parseDeclaration(
                 parse_AtDeclarator);
 }
 
+/**
+ * A tag declared by the specifiers (a \a struct-or-union-specifier or an
+ * \a enum-specifier with a body) becomes a specifier that holds the declaration.
+ */
+void Parser::turnTagDeclarationIntoSpecifier(DeclarationSyntax*& decl,
+                                             SpecifierListSyntax*& specList)
+{
+    auto tyDeclSpec = makeNode<TagDeclarationAsSpecifierSyntax>();
+    tyDeclSpec->tagDecl_ = static_cast<TagDeclarationSyntax*>(decl);
+    decl = nullptr;
+    if (!specList)
+        specList = makeNode<SpecifierListSyntax>(tyDeclSpec);
+    else {
+        for (auto iter = specList; iter; iter = iter->next) {
+            if (iter->value->asTagTypeSpecifier()
+                    && iter->value == tyDeclSpec->tagDecl_->typeSpec_) {
+                iter->value = tyDeclSpec;
+                break;
+            }
+        }
+    }
+}
+
 bool Parser::parseDeclarationOrStructDeclaration_AtFollowOfSpecifiers(
         DeclarationSyntax*& decl,
         SpecifierListSyntax*& specList,
@@ -208,20 +231,7 @@ bool Parser::parseDeclarationOrStructDeclaration_AtFollowOfSpecifiers(
             return true;
         }
 
-        auto tyDeclSpec = makeNode<TagDeclarationAsSpecifierSyntax>();
-        tyDeclSpec->tagDecl_ = static_cast<TagDeclarationSyntax*>(decl);
-        decl = nullptr;
-        if (!specList)
-            specList = makeNode<SpecifierListSyntax>(tyDeclSpec);
-        else {
-            for (auto iter = specList; iter; iter = iter->next) {
-                if (iter->value->asTagTypeSpecifier()
-                        && iter->value == tyDeclSpec->tagDecl_->typeSpec_) {
-                    iter->value = tyDeclSpec;
-                    break;
-                }
-            }
-        }
+        turnTagDeclarationIntoSpecifier(decl, specList);
     } else if (peek().kind() == SyntaxKind::SemicolonToken) {
         parseIncompleteDeclaration_AtFirst(decl, specList);
         return true;
@@ -888,6 +898,8 @@ bool Parser::parseParameterDeclaration(ParameterDeclarationSyntax*& paramDecl)
     SpecifierListSyntax* specList = nullptr;
     if (!parseDeclarationSpecifiers(decl, specList, DeclarationContext::Parameter))
         return false;
+    if (decl)
+        turnTagDeclarationIntoSpecifier(decl, specList);
 
     if (!specList) {
         switch (peek().kind()) {
@@ -961,6 +973,8 @@ bool Parser::parseExtKR_ParameterDeclaration(ExtKR_ParameterDeclarationSyntax*& 
     SpecifierListSyntax* specList = nullptr;
     if (!parseDeclarationSpecifiers(decl, specList, DeclarationContext::Unspecified))
         return false;
+    if (decl)
+        turnTagDeclarationIntoSpecifier(decl, specList);
 
     paramDecl = makeNode<ExtKR_ParameterDeclarationSyntax>();
     paramDecl->specs_ = specList;
